@@ -156,7 +156,11 @@ fn build_add(lhs: &AstNode, rhs: &AstNode) -> Result<Evaluator> {
       }
       Value::YearsAndMonthsDuration(lh) => {
         if let Value::YearsAndMonthsDuration(rh) = rhv {
-          Value::YearsAndMonthsDuration(FeelYearsAndMonthsDuration::new_m(lh.as_months() + rh.as_months()))
+          // the range of months is symmetric, the smallest integer has no absolute value
+          match lh.as_months().checked_add(rh.as_months()).filter(|months| *months != i64::MIN) {
+            Some(months) => Value::YearsAndMonthsDuration(FeelYearsAndMonthsDuration::new_m(months)),
+            None => value_null!("addition err 5"),
+          }
         } else {
           value_null!("addition err 4")
         }
@@ -1276,7 +1280,10 @@ fn build_neg(lhs: &AstNode) -> Result<Evaluator> {
     match lhv {
       Value::Number(lh) => Value::Number(-lh),
       Value::DaysAndTimeDuration(lh) => Value::DaysAndTimeDuration(-lh),
-      Value::YearsAndMonthsDuration(lh) => Value::YearsAndMonthsDuration(FeelYearsAndMonthsDuration::new_m(-lh.as_months())),
+      Value::YearsAndMonthsDuration(lh) => match lh.as_months().checked_neg() {
+        Some(months) => Value::YearsAndMonthsDuration(FeelYearsAndMonthsDuration::new_m(months)),
+        None => value_null!("arithmetic negation err 2"),
+      },
       _ => value_null!("arithmetic negation err 1"),
     }
   }))
@@ -1646,7 +1653,9 @@ fn build_sub(lhs: &AstNode, rhs: &AstNode) -> Result<Evaluator> {
       }
       Value::YearsAndMonthsDuration(ref lh) => {
         if let Value::YearsAndMonthsDuration(ref rh) = rhv {
-          return Value::YearsAndMonthsDuration(FeelYearsAndMonthsDuration::new_m(lh.as_months() - rh.as_months()));
+          if let Some(months) = lh.as_months().checked_sub(rh.as_months()).filter(|months| *months != i64::MIN) {
+            return Value::YearsAndMonthsDuration(FeelYearsAndMonthsDuration::new_m(months));
+          }
         }
       }
       _ => {}
